@@ -43,6 +43,10 @@ def followup(stage, lines, model, checked, release, tier, rng):
                 r = K.sign_raw(s, msg, sk, 0)
                 _st["trip"].append(dict(set=s, msg=msg, pk=pk, req=r))
                 L.append(r)
+            # an honest signature with an empty hint row after a non-empty one (searched on the implementation): its
+            # alterations include lowering the counter of the empty row, which leaves the decoded hint vector unchanged
+            L.append("@impl scan::findsigempty %s %s %d" % (s, sk, 1500 if tier == "quick" else 8000))
+            _st.setdefault("pk_of", {})[s] = pk
             if S.P(s).mldsa:
                 # API level: context / mode / hash alterations, incl. moving the boundary between context and message
                 ctx, msg = b"payments/v1:", b"pay 10 to bob"
@@ -64,7 +68,22 @@ def followup(stage, lines, model, checked, release, tier, rng):
         return L
     if stage == 2:
         idx = {l: i for i, l in enumerate(lines)}
+        for ln, c in zip(list(lines), list(checked)):
+            if ln.startswith("@impl scan::findsigempty ") and c.startswith("ok ") and c != "ok none":
+                s = ln.split()[2]; tt = c.split()
+                pk = _st["pk_of"][s]
+                L.append("@impl scan::sigflips %s %s %s %s" % (s, tt[2], tt[1], pk))
+                p = S.P(s)
+                sigb = bytearray(bytes.fromhex(tt[2])); row = int(tt[3]); hoff = p.sig - p.omega - p.k
+                e2 = dict(set=s, msg=K.unhx(tt[1]), pk=pk, req=ln, neg=[])
+                for v in range(sigb[hoff + p.omega + row]):
+                    w = bytearray(sigb); w[hoff + p.omega + row] = v
+                    e2["neg"].append(K.verify_raw(s, w.hex(), e2["msg"], pk))
+                e2["pos"] = K.verify_raw(s, tt[2], e2["msg"], pk)
+                _st["trip"].append(e2); L.extend(e2["neg"][-3:] + e2["neg"][:1]); e2["neg"] = e2["neg"][-3:] + e2["neg"][:1]; L.append(e2["pos"])
         for e in _st["trip"]:
+            if "sig" not in e and e["req"].startswith("@impl scan::findsigempty"):
+                continue
             sig = K.sig_of(checked[idx[e["req"]]])
             if sig is None:
                 continue
@@ -158,7 +177,7 @@ def violated_all(lines, model, checked, release):
     out = []
     idx = {l: i for i, l in enumerate(lines)}
     for i, l in enumerate(lines):
-        if l.startswith("@impl scan::"):
+        if l.startswith("@impl scan::") and not l.startswith("@impl scan::findsig"):
             for prof, ans in (("checked", checked), ("wrapping", release)):
                 a = ans[i]
                 if not a.startswith("ok ") or " accepted=0 " not in a or " panics=0 " not in a:
